@@ -230,3 +230,98 @@ Proof.
     apply inst_eqb_eq in R. subst i. reflexivity.
 Qed.
 Print Assumptions C04_checked_instance_case.
+
+(* ... and the instance oracle is GIVEN wherever the interpreter consults it:
+   every node of every direction runs an instance that has a row for that
+   direction, and [dec_ioracle] returns that row - the totalising defaults
+   ((0, Plain) for an unmapped node in [beh_of_maps], for an instance without
+   row in [dec_ioracle]) stand in for no processor's output in a case that
+   passes [run_case_inst]. *)
+Lemma existsb_find : forall (X : Type) (p : X -> bool) l,
+  existsb p l = true -> exists x, find p l = Some x.
+Proof.
+  intros X p l. induction l as [|a l IH]; cbn; intros H; [discriminate|].
+  destruct (p a); [exists a; reflexivity|exact (IH H)].
+Qed.
+
+Theorem C04_checked_instance_rows : forall rows decl ifs,
+  rows_ok rows decl ifs = true ->
+  forall f d n, In f ifs -> In n (nodes (gdir (i_flow f) d)) ->
+    exists i c e,
+      lookup (imap_of ByNamedFlow decl f d) (fst n) = Some i
+      /\ In (IR (fst i) (snd i) (is_req d) c e) rows
+      /\ dec_ioracle rows i d = (c, if e then Early else Plain).
+Proof.
+  intros rows decl ifs H f d n I J. unfold rows_ok in H. rewrite forallb_forall in H.
+  specialize (H f I). apply andb_true_iff in H. destruct H as [Q S].
+  assert (D : dir_rows_ok rows d (gdir (i_flow f) d) (imap_of ByNamedFlow decl f d) = true)
+    by (destruct d; assumption).
+  unfold dir_rows_ok in D. rewrite forallb_forall in D. specialize (D n J).
+  destruct (lookup (imap_of ByNamedFlow decl f d) (fst n)) as [i|]; [|discriminate].
+  unfold has_row in D. destruct (existsb_find _ _ _ D) as [r F].
+  destruct (find_some _ _ F) as [K R]. destruct r as [o m q c e].
+  unfold row_for in R. apply andb_true_iff in R. destruct R as [R R3].
+  apply andb_true_iff in R. destruct R as [R1 R2].
+  apply Z.eqb_eq in R1. apply Z.eqb_eq in R2. apply eqb_prop in R3. subst o m q.
+  exists i, c, e. split; [reflexivity|]. split; [exact K|].
+  unfold dec_ioracle. rewrite F. reflexivity.
+Qed.
+Print Assumptions C04_checked_instance_rows.
+
+(* the check is not vacuous and not trivially true: it holds on the witness
+   configuration with a row per instance and direction, and fails as soon as
+   the row of one executed instance is missing *)
+Example C04_rows_witness :
+  let rows := [IR 1 1 true 0 false; IR 2 3 true 8 false; IR 1 4 true 0 false; IR 1 3 false 7 false] in
+  rows_ok rows x_decl [x_A; x_B] = true
+  /\ dec_ioracle rows (2, 3) Req = (8, Plain)
+  /\ rows_ok (IR 1 1 true 0 false :: skipn 2 rows) x_decl [x_A; x_B] = false
+  /\ rows_ok rows x_decl [{| i_flow := i_flow x_A; i_req := []; i_res := i_res x_A |}; x_B] = false.
+Proof. vm_compute. repeat split; reflexivity. Qed.
+
+(* ---- the headline without the first-mention caveat ------------------------------ *)
+
+Lemma first_mention_some : forall ms k m,
+  In m ms -> r_key (snd m) = k -> exists m', first_mention ms k = Some m'.
+Proof.
+  induction ms as [|a ms IH]; cbn [In first_mention]; intros k m I K; [destruct I|].
+  destruct (r_key (snd a) =? k) eqn:E; [exists a; reflexivity|].
+  destruct I as [I|I]; [subst a; rewrite K, Z.eqb_refl in E; discriminate E|].
+  exact (IH k m I K).
+Qed.
+
+(* What suite txn really establishes per case: in a configuration that passes
+   [inst_ok], an executed node ran the instance named by EVERY reference to its
+   key in the connection lists of its flow and direction (not only by the one
+   that created the node), and reports that instance's output.
+   C04_runs_named_instances + C04_checked_instance_case. *)
+Theorem C04_checked_case_every_reference : forall decl ifs ib fuel s s2 sc e f m,
+  inst_ok decl ifs = true ->
+  In e (fst (run_req_i ByNamedFlow decl ifs ib fuel s s2))
+  \/ In e (fst (run_res_i ByNamedFlow decl ifs ib fuel s sc)) ->
+  find_iflow ifs (e_flow (fst e)) = Some f ->
+  In m (i_refs f (e_dir (fst e))) -> r_key (snd m) = e_key (fst e) ->
+  snd e = Some (named (fst m) (snd m))
+  /\ e_cond (fst e) = fst (ib (named (fst m) (snd m)) (e_dir (fst e))).
+Proof.
+  intros decl ifs ib fuel s s2 sc e f m H I F J K.
+  assert (Jf : In f ifs) by (unfold find_iflow in F; exact (proj1 (find_some _ _ F))).
+  destruct (first_mention_some _ _ _ J K) as [[cur r] M].
+  destruct (C04_runs_named_instances decl ifs ib fuel s s2 sc e f cur r I F M) as [A B].
+  pose proof (proj2 (C04_checked_instance_case decl ifs H f (e_dir (fst e)) Jf) m J) as L.
+  rewrite K in L. unfold imap_of in L. rewrite build_insts_first, M in L.
+  unfold resolve in L. cbn [option_map fst snd] in L.
+  assert (E : named cur r = named (fst m) (snd m)) by congruence.
+  rewrite <- E. split; assumption.
+Qed.
+Print Assumptions C04_checked_case_every_reference.
+
+(* hypotheses met on the witness: the second reference "B.audit" of flow A's
+   request list (not the creating one) and the event of node 2 *)
+Example C04_every_reference_witness :
+  inst_ok x_decl [x_A; x_B] = true
+  /\ In (x_ev 2 8, Some (2, 3)) (fst (run_req_i ByNamedFlow x_decl [x_A; x_B] x_ib 5 x_sel None))
+  /\ find_iflow [x_A; x_B] 1 = Some x_A
+  /\ nth_error (i_refs x_A Req) 3 = Some (1, x_ref 2 (Some 2) 3)
+  /\ named 1 (x_ref 2 (Some 2) 3) = (2, 3).
+Proof. vm_compute. repeat split; try reflexivity. right. left. reflexivity. Qed.
